@@ -500,6 +500,43 @@ func r08_4(c *Ctx, rule string) {
 			}
 		}
 		c.R.Floor(rule, "close sites of "+e.typ+"."+e.ch, closes, 1)
+		// every failing exit of a function that announces failure through the
+		// channel does announce it: a return of a non-nil result is preceded
+		// by the close (a waiter parked on the channel is woken on every exit)
+		for _, fn := range c.P.ModFuncs {
+			fn := fn
+			if len(c.P.CallsTo(fn, "builtin:close")) == 0 || fn.Signature.Results().Len() != 1 {
+				continue
+			}
+			owns := false
+			for _, cl := range c.P.CallsTo(fn, "builtin:close") {
+				if c.P.ChanDesc(cl.Common().Args[0]) == "field:"+chOwner {
+					owns = true
+				}
+			}
+			if !owns || len(fieldStoresIn(fn, fOwner)) == 0 {
+				continue
+			}
+			if types.TypeString(fn.Signature.Results().At(0).Type(), nil) != "error" {
+				continue
+			}
+			ex := c.explorer(fn)
+			ex.Barrier = func(in ssa.Instruction, st *eng.State) bool {
+				return c.P.IsCallTo(in, "builtin:close") && c.P.ChanDesc(in.(ssa.CallInstruction).Common().Args[0]) == "field:"+chOwner
+			}
+			ex.Target = func(in ssa.Instruction, st *eng.State) bool {
+				r, ok := in.(*ssa.Return)
+				if !ok || len(r.Results) != 1 {
+					return false
+				}
+				return !ex.IsNil(r.Results[0], st)
+			}
+			ex.StopAtTarget = true
+			h := ex.Run()
+			c.R.Check(len(h) == 0 && !ex.Exhausted, rule, fmt.Sprintf("%s.%s/every-failing-exit-announces in %s", e.typ, e.ch, c.name(fn)), c.P.Pos(fn.Pos()),
+				"every return of a (possibly) non-nil error is preceded by the close of the announcing channel",
+				c.name(fn)+" can return an error without having closed "+e.typ+"."+e.ch+": a goroutine waiting on that channel (parked in a send on the full queue) is never woken")
+		}
 		// reads of the field outside the storing functions
 		reads := 0
 		for _, fn := range c.P.ModFuncs {
